@@ -525,7 +525,18 @@ fn gen_auth(g: &mut Gen, f: &mut Faults) -> Item {
 
 fn gen_nested(g: &mut Gen, kind: Kind, f: &mut Faults, depth: usize) -> Item {
     if f.take(g, "nested-bad") {
-        return match g.below(4) {
+        return match g.below(7) {
+            // a single structure where the list of structures belongs (not wrapped in a list)
+            4 => gen_msg(g, kind, &mut Faults::none(), 0),
+            // a list nested one level too deep
+            5 => Item::Array(vec![Item::Array(vec![gen_msg(g, kind, &mut Faults::none(), 0)])]),
+            // a structure of the other nested kind (signature vs recipient shapes)
+            6 => {
+                let other = if kind == Kind::Signature { Kind::Recipient } else { Kind::Signature };
+                let mut v = vec![gen_protected(g, &mut Faults::none(), 0), gen_header(g, &mut Faults::none(), 0)];
+                v.push(if other == Kind::Signature { Item::Bytes(g.small_bytes()) } else { Item::Null });
+                Item::Array(vec![Item::Array(v)])
+            }
             0 => gen_wrong_kind(g, &["array"]),
             1 => Item::Array(vec![gen_wrong_kind(g, &["array"])]),
             2 => {
@@ -586,6 +597,21 @@ pub fn gen_msg(g: &mut Gen, kind: Kind, f: &mut Faults, depth: usize) -> Item {
         return gen_wrong_kind(g, &["array"]);
     }
     let mut v = gen_msg_slots(g, kind, f, depth);
+    // correlation: sometimes a nested signer / recipient carries the same protected content as the
+    // body (the styled encoder still draws their bytes independently)
+    if g.ratio(1, 8) {
+        let body_prot = v[0].clone();
+        if let Some(Item::Array(nested)) = v.last_mut() {
+            if !nested.is_empty() {
+                let at = g.below(nested.len());
+                if let Item::Array(inner) = &mut nested[at] {
+                    if !inner.is_empty() {
+                        inner[0] = body_prot;
+                    }
+                }
+            }
+        }
+    }
     if f.take(g, "msg-arity") {
         match g.below(4) {
             0 => {
